@@ -30,6 +30,9 @@ type Gen struct {
 	// TextBytes restricts bytes / fixed leaves to valid UTF-8 text (the JSON formats cannot carry anything else:
 	// known finding KF-C01-json-non-utf8); used by checks whose subject is something other than the codec.
 	TextBytes bool
+	// SlashSiblings: one map in three gains an entry whose key spells the path of another entry's child (m["a/b"] next
+	// to m["a"].b): two different values whose slash-joined paths coincide (C07)
+	SlashSiblings bool
 }
 
 var HostileStrings = []string{
@@ -240,6 +243,17 @@ func (g *Gen) Value(t *rapid.T, typ schema.Type, depth int) *V {
 				continue
 			}
 			m.Put(k, g.Value(t, *typ.Map, depth+1))
+		}
+		if g.SlashSiblings && len(m.Keys()) > 0 && rapid.IntRange(0, 2).Draw(t, "slash_sibling") == 0 {
+			// an entry whose key spells the path of another entry's child: m["a/b"] next to m["a"].b
+			for _, k := range m.Keys() {
+				if kids := m.Get(k).Keys(); len(kids) > 0 {
+					if nk := k + "/" + kids[0]; m.Get(nk) == nil {
+						m.Put(nk, g.Value(t, *typ.Map, depth+1))
+					}
+					break
+				}
+			}
 		}
 		return m
 	}
